@@ -2,7 +2,7 @@
 (***************************************************************************)
 (* The model API over the schema of `vh schema -schema api` (one root      *)
 (* table A: name and i2 indexed, an optional, a set, a map, an immutable   *)
-(* column, an optional weak reference to A): every call of the alphabet    *)
+(* and an enum column, an optional weak reference to A): every call of the alphabet    *)
 (* below on every start database.  TLC checks the laws of the contract on  *)
 (* each (Laws) and prints the case; the harness makes the same call on a   *)
 (* synchronised client of a server holding the same rows, and TraceApi     *)
@@ -14,12 +14,12 @@ CONSTANT Variant      \* "intended" | "fieldsDropDefaults" (refuted: a listed fi
 
 \* ---- rows and models in JSON form
 R(name, i, i2, o, s, m, imm, peer) ==
-    [name |-> name, i |-> i, i2 |-> i2, o |-> o, s |-> s, m |-> m, imm |-> imm, peer |-> peer]
+    [name |-> name, i |-> i, i2 |-> i2, o |-> o, s |-> s, m |-> m, imm |-> imm, peer |-> peer, e |-> ""]
 M(uuid, cols) == [uuid |-> uuid, cols |-> cols]
 Zero == R("", 0, 0, <<>>, <<>>, <<>>, "", <<>>)
 
 DB0J == [u \in {} |-> Zero]
-DB1J == ("u1" :> R("a", 1, 1, <<"x">>, <<"p">>, <<<<"k", "v">>>>, "c", <<>>))
+DB1J == ("u1" :> [R("a", 1, 1, <<"x">>, <<"p">>, <<<<"k", "v">>>>, "c", <<>>) EXCEPT !.e = "red"])
      @@ ("u2" :> R("b", 1, 2, <<>>, <<>>, <<>>, "", <<"u1">>))
      @@ ("u3" :> Zero)
 DBsJ == <<DB0J, DB1J>>
@@ -27,7 +27,7 @@ Native(dbj) == [t \in Tables |-> [u \in DOMAIN dbj |-> [c \in Cols(t) |-> ValJ(C
 
 \* ---- create
 C1 == M("", [Zero EXCEPT !.name = "c", !.i2 = 3])
-C2 == M("@n1", R("d", 2, 4, <<"y">>, <<"q", "r">>, <<<<"k2", "v2">>>>, "z", <<"@n2">>))
+C2 == M("@n1", [R("d", 2, 4, <<"y">>, <<"q", "r">>, <<<<"k2", "v2">>>>, "z", <<"@n2">>) EXCEPT !.e = "blue"])
 C3 == M("@n2", [Zero EXCEPT !.name = "e", !.i2 = 5, !.peer = <<"@n1">>])
 C4 == M("u9", [Zero EXCEPT !.name = "f", !.i2 = 6, !.peer = <<"u1">>])
 C5 == M("", [Zero EXCEPT !.name = "a", !.i2 = 7])
@@ -54,7 +54,12 @@ Sels == {
     Sel("all", <<>>, <<<<"s", "includes", <<"p">>, "set">>>>),
     Sel("all", <<>>, <<<<"i", ">", 5, "atom">>>>),
     Sel("any", <<>>, <<<<"name", "==", "a", "atom">>, <<"name", "==", "b", "atom">>>>),
-    Sel("any", <<>>, <<<<"i", "==", 7, "atom">>, <<"m", "includes", <<<<"k", "v">>>>, "col">>>>)
+    Sel("any", <<>>, <<<<"i", "==", 7, "atom">>, <<"m", "includes", <<<<"k", "v">>>>, "col">>>>),
+    Sel("all", <<>>, <<<<"e", "==", "red", "atom">>>>),
+    Sel("any", <<>>, <<<<"e", "!=", "red", "atom">>, <<"o", "==", <<"x">>, "set">>>>),
+    Sel("all", <<>>, <<<<"name", "<", "b", "atom">>>>),
+    Sel("all", <<>>, <<>>),
+    Sel("models", <<>>, <<>>)
 }
 
 \* ---- update
@@ -62,7 +67,7 @@ U1 == M("", R("", 5, 0, <<"n">>, <<"a", "b">>, <<<<"x", "y">>>>, "", <<>>))
 U2 == M("", Zero)
 U3 == M("", [Zero EXCEPT !.imm = "q"])
 U4 == M("", [Zero EXCEPT !.name = "a", !.i2 = 9])
-U5 == M("", [Zero EXCEPT !.peer = <<"u2">>, !.o = <<"">>])
+U5 == M("", [Zero EXCEPT !.peer = <<"u2">>, !.o = <<"">>, !.e = "green"])
 Updates == {<<U1, <<>>>>, <<U1, <<"i">>>>, <<U1, <<"o">>>>, <<U1, <<"s", "m">>>>, <<U1, <<"name">>>>, <<U1, <<"imm">>>>, <<U1, <<"i", "imm">>>>,
             <<U1, <<"peer">>>>, <<U2, <<>>>>, <<U2, <<"o">>>>, <<U2, <<"s", "m", "i">>>>, <<U3, <<>>>>, <<U4, <<>>>>, <<U4, <<"i2">>>>,
             <<U5, <<>>>>, <<U5, <<"peer">>>>}
@@ -81,6 +86,7 @@ Muts == {
     <<<<"i", "+=", 1, "atom">>, <<"s", "insert", <<"z">>, "col">>, <<"i", "*=", 3, "atom">>>>,
     <<<<"imm", "insert", <<"x">>, "col">>>>,
     <<<<"name", "+=", 1, "atom">>>>,
+    <<<<"e", "insert", <<"red">>, "col">>>>,
     <<>>
 }
 
